@@ -382,3 +382,15 @@ func ExpectMeasure(evs []*Event, m Measure, colKinds map[string]map[Kind]bool) E
 	}
 	return Expect{DontCare: true, Note: "unknown fn"}
 }
+
+// MeasureFieldInBy reports whether a measure aggregates a field that is also a by-column.
+func (q *StatsQuery) MeasureFieldInBy() bool {
+	for _, m := range q.Measures {
+		for _, b := range q.By {
+			if m.Field == b {
+				return true
+			}
+		}
+	}
+	return false
+}
